@@ -3,7 +3,9 @@
 name=$1; pid=${2:-${name%%-*}}; tier=${3:-quick}
 cd /verif
 git -C /repo apply /verif/seeded/$name/patch.diff || { echo "patch does not apply"; exit 3; }
+cp evidence/$pid.json /tmp/evidence_$pid.bak 2>/dev/null
 ./check $pid --tier $tier > /tmp/seedrun_$name.out 2>&1; code=$?
 git -C /repo checkout -- .
+cp /tmp/evidence_$pid.bak evidence/$pid.json 2>/dev/null  # evidence must describe the unchanged tree
 grep -E "^(VIOLATION|INCONCLUSIVE|PASS|FAIL|KNOWN)" /tmp/seedrun_$name.out | cut -c1-300 | head -8
 echo "seed $name check $pid exit=$code"
